@@ -131,6 +131,35 @@ def correspondence(ctx):
         for ln, r in zip(ch, out):
             if "OVER" in r:
                 ctx.violation("frame epilogue written past the destination capacity: %s" % r[:300], dict(kind="monitor", op=ln[:400000], result=r))
+    # (b3) the sequence-level single-pass entry point: ZSTD_compressSequences into exact-size destinations (every capacity up to 40, around the
+    # compressed size, around the bound)
+    slines, sinfo = [], []
+    for i in range(30 if ctx.quick() else 400):
+        kind, x = datagen.gen(rng, rng.choice([0, 1, 40, 300, 3000, 20000, 140000]))
+        p = {100: rng.choice([1, 3, 5, 9, 13]), 201: rng.choice([0, 1])}
+        if rng.random() < 0.3: p[200] = 0
+        r0 = frames.run_lines(plain, ["ccaps %s %d %s" % (frames.pstr(p), len(x) + (len(x) >> 7) + 1024, frames.hx(x))])[1]
+        if not r0 or not r0[0].startswith("ok"):
+            continue
+        csize = int(r0[0].split()[1])
+        n_ = len(x); sb = n_ + (n_ >> 8) + (((128 << 10) - n_) >> 11 if n_ < (128 << 10) else 0)      # ZSTD_compressBound
+        for cp in sorted(set(list(range(0, 41)) + [csize + d for d in (-9, -5, -4, -3, -2, -1, 0, 1)] + [rng.randrange(0, csize + 2) for _ in range(6)] + [sb, sb + 1])):
+            if cp >= 0:
+                slines.append("ccaps %s %d %s" % (frames.pstr(p), cp, frames.hx(x))); sinfo.append((x, p, cp, sb))
+    sres = frames.parallel(lambda ch: [frames.run_lines(exe, ch, timeout=1800)], frames.split_chunks(slines, 16))
+    spos = 0
+    for (rc, out, err), ch in zip(sres, frames.split_chunks(slines, 16)):
+        ev += len(out)
+        if rc != 0 or len(out) != len(ch):
+            x, p, cp, csize = sinfo[spos + min(len(out), len(ch) - 1)]
+            ctx.violation("sanitizer build aborted in ZSTD_compressSequences into %d bytes (needed %d): %s" % (cp, csize, (err or "")[-700:]),
+                          dict(kind="monitor", api="compressSequences", params=p, capacity=cp, input_hex=frames.hx(x)[:600000], stderr=(err or "")[-3000:]))
+        for r, (x, p, cp, csize) in zip(out, sinfo[spos:spos + len(ch)]):
+            if "MORE-THAN" in r or (r.startswith("ok") and int(r.split()[1]) > cp):
+                ctx.violation("ZSTD_compressSequences returned %s for capacity %d" % (r, cp), dict(kind="monitor", api="compressSequences", params=p, capacity=cp, input_hex=frames.hx(x)[:600000], result=r))
+            elif cp >= csize and not r.startswith("ok"):
+                ctx.violation("ZSTD_compressSequences failed (%s) in %d bytes >= ZSTD_compressBound = %d" % (r, cp, csize), dict(kind="monitor", api="compressSequences", params=p, capacity=cp, input_hex=frames.hx(x)[:600000], result=r))
+        spos += len(ch)
     # (c) decode capacity sweep + inspectors + in-place
     lines, dinfo = [], []
     frs = frames.parallel(lambda ch: frames.run_lines(plain, ch)[1], frames.split_chunks(["comp2 c2 %s %s" % (frames.pstr(p), frames.hx(x)) for k, x, p in cases], 16))
@@ -230,5 +259,5 @@ def replay(ctx, data):
         return dict(violates=True, result=frames.run_lines(exe, [data["op"]])[1])
     x = bytes.fromhex(data["input_hex"]) if data.get("input_hex", "-") != "-" else b""
     p = {int(k): v for k, v in (data.get("params") or {}).items()}
-    rc, out, err = frames.run_lines(exe, ["ccap %s %d %s" % (frames.pstr(p), data.get("capacity", 0), frames.hx(x))])
+    rc, out, err = frames.run_lines(exe, ["%s %s %d %s" % ("ccaps" if data.get("api") == "compressSequences" else "ccap", frames.pstr(p), data.get("capacity", 0), frames.hx(x))])
     return dict(violates=rc != 0 or any("OVERRUN" in o or "MORE" in o for o in out), rc=rc, out=out, err=err[-1500:])
